@@ -1253,9 +1253,9 @@ def derived_observable(func, data, array_mode=False, **kwargs):
     reweighted = len(list(filter(lambda o: o.reweighted is True, raveled_data))) > 0
 
     if data.ndim == 1:
-        values = np.array([o.value for o in data])
+        values = np.array([o.value for o in data], dtype=np.float64)
     else:
-        values = np.vectorize(lambda x: x.value)(data)
+        values = np.vectorize(lambda x: x.value, otypes=[np.float64])(data)
 
     new_values = func(values, **kwargs)
 
